@@ -264,7 +264,51 @@ def timer_consts():
           'def tickMillion : Nat := %d\n' % vals['million'])
 
 
-ALL = dict(timer_consts=timer_consts, schema_utest=schema_utest, consts=consts, itoa_table=itoa_table, mon_days=mon_days, tables_utest=tables_utest)
+XML_PATTERNS = {'rCE_': r'&#(x[A-Fa-f0-9]+|[0-9]+);', 'rCX_': r'&([a-z]{2,}[1-4]{0,});', 'rIn_': r'href=\"([^\"]+)\"'}
+
+
+def xml_facts():
+    """entity table `stringtochar_`, `MaxDepth`; the three regular expressions that the model re-implements as
+    scanners must still be the ones the scanners were written for"""
+    s = _src('runtime/xml.cpp')
+    m = re.search(r'const Str2Chr XmlElement::stringtochar_\s*\{(.*?)\n\};', s, re.S)
+    if not m:
+        raise FactError('stringtochar_ table not found in runtime/xml.cpp')
+    ents = []
+    for nm, v in re.findall(r'\{\s*"([^"]*)"\s*,\s*([^}]*?)\s*\}', m.group(1)):
+        v = v.strip()
+        if re.fullmatch(r"'\\?.'", v):
+            ch = v[1:-1]
+            val = ord(ch[-1]) if len(ch) == 2 and ch[1] in '\'"\\' else (ord(ch) if len(ch) == 1 else None)
+            if val is None:
+                raise FactError('unexpected entity character literal %s' % v)
+        elif re.fullmatch(r'\d+', v):
+            val = int(v)
+        else:
+            raise FactError('unexpected entity value %r' % v)
+        if not (0 <= val <= 255):
+            raise FactError('entity value out of unsigned char range: %s' % v)
+        ents.append((nm, val))
+    if len(ents) < 5 or len(set(n for n, _ in ents)) != len(ents):
+        raise FactError('entity table has %d entries / duplicate names' % len(ents))
+    for name, pat in XML_PATTERNS.items():
+        mm = re.search(re.escape(name) + r'\("((?:[^"\\]|\\.)*)"\)', s)
+        if not mm:
+            raise FactError('regular expression %s not found in runtime/xml.cpp' % name)
+        got = mm.group(1).replace('\\\\', '\\')
+        if got != pat:
+            raise FactError('regular expression %s is now %r; the scanner in Fix8Model/Xml/Xlate.lean models %r' % (name, got, pat))
+    h = _src('include/fix8/xml.hpp')
+    md = re.search(r'enum\s*\{\s*MaxDepth\s*=\s*(\d+)\s*\}', h)
+    if not md:
+        raise FactError('XmlElement::MaxDepth not found in include/fix8/xml.hpp')
+    body = ('/-- `XmlElement::stringtochar_` (runtime/xml.cpp): entity name bytes, replacement byte -/\n'
+            'def xmlEntities : List (List Nat × Nat) := [\n%s]\n\n/-- `XmlElement::MaxDepth` -/\ndef xmlMaxDepth : Nat := %s\n'
+            % (',\n'.join('  ([%s], %d)' % (', '.join(str(ord(c)) for c in nm), v) for nm, v in ents), md.group(1)))
+    _emit('XmlFacts', body)
+
+
+ALL = dict(xml_facts=xml_facts, timer_consts=timer_consts, schema_utest=schema_utest, consts=consts, itoa_table=itoa_table, mon_days=mon_days, tables_utest=tables_utest)
 
 
 def generate(names):
